@@ -55,7 +55,11 @@ static __attribute__((noinline)) void check_circ(std::pair<It, It> &pr, const Re
     const int h = (*it).idx();
     if (lapj == 0) g_obs[pos] = h;
     else v_assert(!in || h == g_obs[pos], "C05 circ: every later lap repeats the first lap");
+#ifdef C05_SELFTEST   /* deliberately wrong oracle: the check must FAIL (harness self-test, never part of a job) */
+    if (ordered) v_assert(!in || h == ref.h[(pos + 1) % len], "C05 circ: position k designates reference[k % len] (ordered family)");
+#else
     if (ordered) v_assert(!in || h == ref.h[pos], "C05 circ: position k designates reference[k % len] (ordered family)");
+#endif
     v_assert(!in || it.lap() == lapj, "C05 circ: lap() counts the completed laps");
     v_assert(!in || it != end, "C05 circ: a valid circulator differs from end");
     if (j == 3 * len - 1) back_walk(it, len, ml);   // by value: a copy at the last position of the third lap
